@@ -20,7 +20,7 @@ CHECKS = {
           "Determinacy and deadlock-freedom are proved for every well-formed graph and every schedule; the hypothesis (pure task functions) is observed on the real system: each workload graph is executed under FIFO/LIFO/reverse/random topological orders with fingerprints of every task argument before and after the call, and under the threaded scheduler with up to 16 threads.",
           "Real thread interleavings, the GIL, partd I/O: observed only.", "DESIGN.md section 6 C05"),
  "C06": C("Coq proof (partial: merge, groupby divisions and the quantile computation of set_index divisions are outside the model): truthfulness of the reported divisions preserved by every modelled derivation (partition selections, partitionwise operators, fused reads, repartition-to-fewer, head/tail, concat) for all divisions/partitions/selections, refutations of the pre-fix formulas, length push-down schema S13, repartition partition counts; T-GEN obligations (no raw operand _divisions() call, length-preserving flags); T-LAYER correspondence of the real _divisions() formulas with the extracted model; differential: reported npartitions/divisions/lengths vs every computed partition at 5 plan stages",
-          "47 theorems in coq/PropC06.v over Divisions.v (truthful = the property's own statement); the real Partitions/PartitionsFiltered/BlockwiseHead/Head/Tail/RepartitionToFewer/Concat/FusedIO _divisions() are compared with the extracted model on ~1200 generated (divisions, selection/boundaries/operands) cases per run, a disagreement is tested on the computed partitions with the verified truthfulb; divisions/npartitions of ~60 derivations x 4 index dtypes (duplicates straddling borders) x partitionings, the same derivations on partition selections, index merges against single-partition frames, presorted pieces, and every variable of generated programs are compared at logical/simplified/lowered/optimized/fused stage with the index range and count of each computed partition; len/shape/size from metadata vs computed.",
+          "48 theorems in coq/PropC06.v over Divisions.v (truthful = the property's own statement); the real Partitions/PartitionsFiltered/BlockwiseHead/Head/Tail/RepartitionToFewer/Concat/FusedIO _divisions() are compared with the extracted model on ~1200 generated (divisions, selection/boundaries/operands) cases per run, a disagreement is tested on the computed partitions with the verified truthfulb; divisions/npartitions of ~60 derivations x 4 index dtypes (duplicates straddling borders) x partitionings, the same derivations on partition selections, index merges against single-partition frames, presorted pieces, and every variable of generated programs are compared at logical/simplified/lowered/optimized/fused stage with the index range and count of each computed partition; len/shape/size from metadata vs computed.",
           "sorted_division_locations (dask) is an oracle; merge/groupby divisions are covered by the differential only; set_index divisions: their use for routing is modelled (SetIndex.v), their computation from quantiles is not.", "DESIGN.md section 6 C06"),
  "C07": C("Coq proof: schema_sound and schema preservation of every accepted rewrite step (Plan.v); differential: _meta vs each computed partition on dtype mixes incl. empty / all-null partitions; label indexing with column indexers; regression corpus D76-D78",
           "For the fragment: the static schema equals the schema of the computed value and optimization never changes it (proved). For everything else: container kind, labels, order, names and dtype kinds of _meta vs every computed partition and the final result for ~65 derivations over int/float/bool/str/category/datetime columns, at every stage.",
